@@ -46,7 +46,7 @@ type gen struct {
 	nextID int
 	feat   map[string]bool
 	css    strings.Builder
-	oofMax int // maximal number of floats / absolutely positioned boxes (KF15-2 needs two)
+	oofMax int // maximal number of floats / absolutely positioned boxes
 	oof    int
 	noGrid bool
 }
@@ -337,9 +337,9 @@ func genDoc(r *rng.R, id int) Doc {
 	g := &gen{r: r, feat: map[string]bool{}, oofMax: 1000}
 	seed := r.Seed()
 	if r.P(3, 5) {
-		// at most one float/abspos and no grid container: the known defects KF15-2 and KF15-3
+		// no float/abspos and no grid container: the known defects KF15-2 and KF15-3
 		// cannot occur, any difference (anchor order aside) is new
-		g.oofMax, g.noGrid = 1, true
+		g.oofMax, g.noGrid = 0, true
 	}
 	var css strings.Builder
 	// page geometry: small pages so that most documents paginate
@@ -408,7 +408,7 @@ func genDoc(r *rng.R, id int) Doc {
 		feats = append(feats, f)
 	}
 	if g.oofMax == 1 {
-		feats = append(feats, "oof<=1,no-grid")
+		feats = append(feats, "no-oof,no-grid")
 	}
 	sortStrings(feats)
 	return Doc{ID: id, Seed: seed, HTML: html, Feats: feats}
